@@ -32,6 +32,9 @@ type tpSpec struct {
 	IDs     []party.ID
 	DetSeed int64
 	Build   func(det *detReader) *Sim
+	// Sibs: sessions differing from this one in exactly one parameter (Name = the difference); used as sources of
+	// foreign-session traffic (c07_twoparty.go, c09.go)
+	Sibs []tpSpec
 }
 
 type tpRef struct {
@@ -364,10 +367,30 @@ func tpSpecs() ([]tpSpec, error) {
 		return nil, fmt.Errorf("doerner keygen did not complete: %s %s", e1, e2)
 	}
 	msgHash := bytes.Repeat([]byte{7}, 32)
-	sg := tpSpec{Name: "doerner-sign", IDs: ids, DetSeed: 42,
-		Build: func(det *detReader) *Sim {
-			return twoPartySim(ids, det, doerner.SignReceiver(cr, ids[0], ids[1], msgHash, nil), doerner.SignSender(cs, ids[1], ids[0], msgHash, nil), []byte("tp-sg"), true, true)
-		}}
+	sign := func(sid, h []byte) func(det *detReader) *Sim {
+		return func(det *detReader) *Sim {
+			return twoPartySim(ids, det, doerner.SignReceiver(cr, ids[0], ids[1], h, nil), doerner.SignSender(cs, ids[1], ids[0], h, nil), sid, true, true)
+		}
+	}
+	keygen := func(r, s party.ID, sid []byte) func(det *detReader) *Sim {
+		return func(det *detReader) *Sim {
+			return twoPartySim([]party.ID{r, s}, det, doerner.Keygen(g, true, r, s, nil), doerner.Keygen(g, false, s, r, nil), sid, true, false)
+		}
+	}
+	sg := tpSpec{Name: "doerner-sign", IDs: ids, DetSeed: 42, Build: sign([]byte("tp-sg"), msgHash)}
+	// sibling sessions: same parties, one parameter different (their own random streams)
+	kg.Sibs = []tpSpec{
+		{Name: "session-id", IDs: ids, DetSeed: 141, Build: keygen(ids[0], ids[1], []byte("tp-kg-other"))},
+		{Name: "session-id-absent", IDs: ids, DetSeed: 142, Build: keygen(ids[0], ids[1], nil)},
+		{Name: "variant-sign", IDs: ids, DetSeed: 143, Build: sign([]byte("tp-kg"), msgHash)},
+		{Name: "roles-swapped", IDs: ids, DetSeed: 144, Build: keygen(ids[1], ids[0], []byte("tp-kg"))},
+	}
+	sg.Sibs = []tpSpec{
+		{Name: "session-id", IDs: ids, DetSeed: 145, Build: sign([]byte("tp-sg-other"), msgHash)},
+		{Name: "session-id-absent", IDs: ids, DetSeed: 146, Build: sign(nil, msgHash)},
+		{Name: "variant-keygen", IDs: ids, DetSeed: 147, Build: keygen(ids[0], ids[1], []byte("tp-sg"))},
+		{Name: "message", IDs: ids, DetSeed: 148, Build: sign([]byte("tp-sg"), bytes.Repeat([]byte{8}, 32))},
+	}
 	return []tpSpec{kg, sg}, nil
 }
 
